@@ -498,7 +498,8 @@ func c01SkipEdges(w *World, r *Report, m *hpModel) {
 		return
 	}
 	appendBlk := m.LocalAppend.Block()
-	vocab := func(cond ssa.Value) (bool, string) {
+	var vocab func(cond ssa.Value) (bool, string)
+	vocab = func(cond ssa.Value) (bool, string) {
 		// judge the SHAPE of the condition itself, not everything it derives from
 		for i := 0; i < 3; i++ {
 			if u, ok := cond.(*ssa.UnOp); ok && u.Op == token.NOT {
@@ -585,7 +586,32 @@ func c01SkipEdges(w *World, r *Report, m *hpModel) {
 			}
 			return false, xp + " " + x.Op.String() + " " + yp
 		case *ssa.Phi:
-			// materialised short-circuit: every non-constant edge must be in the vocabulary
+			// a named boolean (`isDropped := a || b`): a materialised short-circuit. Its leaves are the tests that
+			// select the constant edges and the values of the other edges; every leaf must be in the vocabulary
+			if b, isB := x.Type().Underlying().(*types.Basic); isB && b.Kind() == types.Bool && len(x.Edges) == len(x.Block().Preds) {
+				var whys []string
+				for i, e := range x.Edges {
+					leaf := e
+					if _, isC := e.(*ssa.Const); isC {
+						c, _, _, isIf := ifSuccs(x.Block().Preds[i])
+						if !isIf {
+							continue
+						}
+						leaf = c
+					}
+					if leaf == ssa.Value(x) {
+						continue
+					}
+					ok, why := vocab(leaf)
+					if !ok {
+						return false, "part of " + x.Comment + ": " + why
+					}
+					whys = append(whys, why)
+				}
+				if len(whys) > 0 {
+					return true, strings.Join(uniqStrings(whys), " / ")
+				}
+			}
 			return false, "phi:" + x.Comment
 		}
 		return false, w.accessPath(cond)
